@@ -23,7 +23,7 @@ type MInputValue struct {
 	Name         string
 	Desc         *string
 	Type         string
-	Default      *string // GraphQL-formatted text (JSON side) ...
+	Default      *string    // GraphQL-formatted text (JSON side) ...
 	DefaultAST   *ast.Value // ... or the AST value (reference side)
 	IsDeprecated bool
 	Reason       *string
@@ -46,18 +46,18 @@ type MEnumValue struct {
 }
 
 type MType struct {
-	Kind          string
-	Name          string
-	Desc          *string
-	SpecifiedBy   *string
-	IsOneOf       bool
-	Fields        []MField // nil = null / not applicable
-	InputFields   []MInputValue
-	EnumValues    []MEnumValue
-	Interfaces    []string
-	PossibleTypes []string
+	Kind                                                                      string
+	Name                                                                      string
+	Desc                                                                      *string
+	SpecifiedBy                                                               *string
+	IsOneOf                                                                   bool
+	Fields                                                                    []MField // nil = null / not applicable
+	InputFields                                                               []MInputValue
+	EnumValues                                                                []MEnumValue
+	Interfaces                                                                []string
+	PossibleTypes                                                             []string
 	HasFields, HasInputFields, HasEnumValues, HasInterfaces, HasPossibleTypes bool // JSON side: value was a list (not null)
-	BuiltIn       bool
+	BuiltIn                                                                   bool
 }
 
 type MDirective struct {
